@@ -22,6 +22,7 @@ var groups = map[string]group{
 	"lockset": lockset,
 	"cfg":     cfgfix,
 	"decide":  func(p *ir.Prog) (int, []string) { return 0, nil },
+	"typestate": typestate,
 }
 
 // Register adds a fixture group (used by other packages' init functions).
@@ -241,4 +242,53 @@ func cfgfix(p *ir.Prog) (int, []string) {
 		fails = append(fails, fmt.Sprintf("cfg fixture package incomplete: %d cases", n))
 	}
 	return ok, fails
+}
+
+func typestate(p *ir.Prog) (int, []string) {
+	funcs := pkgFuncs(p, "tsfix")
+	if len(funcs) < 25 {
+		return 0, []string{"typestate fixture package missing"}
+	}
+	cfg := eng.TSConfig{
+		P: p,
+		FreeArg: func(cs ir.CallSite) ssa.Value {
+			if p.CalleeName(cs.Common) == "tsfix.Free" {
+				return cs.Common.Args[0]
+			}
+			return nil
+		},
+		ConsumeArg: func(cs ir.CallSite) ssa.Value {
+			if p.CalleeName(cs.Common) == "tsfix.Append" {
+				return cs.Common.Args[0]
+			}
+			return nil
+		},
+		IsMalloc: func(cs ir.CallSite) bool { return p.CalleeName(cs.Common) == "tsfix.Malloc" },
+		ExecutorClosure: func(cs ir.CallSite) *ssa.Function {
+			if p.CalleeName(cs.Common) == "tsfix.Execute" {
+				if mc, ok := cs.Common.Args[0].(*ssa.MakeClosure); ok {
+					return mc.Fn.(*ssa.Function)
+				}
+			}
+			return nil
+		},
+	}
+	ts := eng.NewTypestate(cfg)
+	for _, f := range funcs {
+		if f.Parent() == nil {
+			ts.AnalyzeRoot(f)
+		}
+	}
+	rep := map[string]bool{}
+	for _, v := range ts.Violations() {
+		rep[ir.Outermost(v.Fn).Name()] = true
+	}
+	var named []*ssa.Function
+	for _, f := range funcs {
+		n := ir.Outermost(f).Name()
+		if strings.HasPrefix(n, "Ok") || strings.HasPrefix(n, "Bad") {
+			named = append(named, f)
+		}
+	}
+	return expectByName(p, named, rep)
 }
